@@ -482,7 +482,6 @@ loop:
 
 		case <-ctx.Done():
 			canceledIndex = i
-			ok = false
 			break loop
 		}
 	}
@@ -497,9 +496,11 @@ loop:
 			results[rpcToRes[rpc]] = res
 			if res.Error != nil {
 				c.handleResultError(res.Error, rpc.Region(), rc)
+				ok = false
 			}
 		default:
 			results[rpcToRes[rpc]].Error = ctx.Err()
+			ok = false
 		}
 	}
 
